@@ -21,6 +21,7 @@ THEOREMS = [
     "PV.C17.parse_bytes_vertical_tab_fails",
     "PV.C17.repr_special",
     "PV.C17.repr_shape",
+    "PV.C17.repr_integer_dot_zero",
     "PV.C17.isInteger_cases",
     "PV.C17.repr_roundtrip_partial",
     "PV.C17.repr_roundtrip_fails",
@@ -92,7 +93,9 @@ LEVEL_TEXT = ("Machine-checked Lean 4 theorems over an executable model of liter
               "binary<->decimal arithmetic: underscore stripping accepts exactly 'underscores between digits' (all "
               "texts); repr has Python's shape and special names; parse_str inverts every repr layout (round trip, "
               "conditional on per-double digit-generation facts that the run evaluates on every sampled double); "
-              "to_hex equals float.hex() off the subnormals; the exponent suffix is sign + >= 2 digits and reads back; "
+              "to_hex equals float.hex() off the subnormals and from_hex(to_hex x) = x for every non-NaN double (through "
+              "a line-by-line model of hexf-parse, with ofRat proved exact on representable values); the exponent "
+              "suffix is sign + >= 2 digits and reads back; "
               "format_fixed / format_exponent / format_general equal ISO C %f/%e/%g (with '#') over correctly rounded "
               "digits for all doubles and all precisions (g: >= 1); rounding is within half a unit, ties to even. "
               "Five deviations from Python are proved as witnessed negations and listed as known findings. The model is "
